@@ -323,6 +323,7 @@ func buildWorld(c *c21Case) *c21World {
 			w.jtvs = append(w.jtvs, c21TV{path: full, tv: u.Val})
 		}
 	}
+	sort.SliceStable(w.reqs, func(a, b int) bool { return w.reqs[a].Prefix != nil && w.reqs[b].Prefix == nil })
 	for i := 0; i < len(c.Tasks); i++ {
 		w.roots = append(w.roots, g.Tree(w.p.RootType(), w.sch).(ygot.GoStruct))
 	}
@@ -588,7 +589,13 @@ func (w *c21World) runOp(op Op, root ygot.GoStruct) string {
 				out = "no requests"
 				return
 			}
-			req := w.reqs[pick(len(w.reqs))]
+			// two callers must often hand in the very same message: most picks go to the first
+			// three requests of the pool (those with a prefix are put first)
+			n := len(w.reqs)
+			if n > 3 && idx%4 != 0 {
+				n = 3
+			}
+			req := w.reqs[pick(n)]
 			schema := &ytypes.Schema{Root: root, SchemaTree: w.schema.SchemaTree, Unmarshal: w.p.Unmarshal}
 			out = normErr(ytypes.UnmarshalSetRequest(schema, req))
 		default:
@@ -702,6 +709,9 @@ func (p *c21Prop) exec(c *c21Case) (*Violation, *Result) {
 	sr, trs := simrt.RunTasks(simrt.SchedCfg{Seed: c.Sched.Seed, MeanGap: c.Sched.MeanGap, Starve: c.Sched.Starve, StarveTo: c.Sched.StarveTo,
 		Replay: c.Sched.Replay, Explicit: c.Sched.Explicit, MaxSteps: 50_000_000, HideSync: c.Sched.RaceMode && *flagHideSync && simrt.RaceBuild, LockBias: c.Sched.LockBias}, ctxs, fns)
 	races := simrt.RaceErrors() - racesBefore
+	// every instrumented mutex must be free again now that all tasks have returned (and is
+	// freed, so that the process can go on)
+	leftHeld := simrt.ReleaseLeftHeld()
 	if os.Getenv("HSIM_FULL") != "" {
 		res.Extra["solo_results"] = solo
 		res.Extra["interleaved_results"] = conc
@@ -760,6 +770,10 @@ func (p *c21Prop) exec(c *c21Case) (*Violation, *Result) {
 		}
 	}
 	// oracles
+	if len(leftHeld) > 0 && deadlock == "" && !sr.Deadlock {
+		sort.Strings(leftHeld)
+		return violation("C21", "lock-left-held", "C21:lock-left-held:"+leftHeld[0], "all tasks have returned but %d lock acquisition(s) were never released: %v", len(leftHeld), leftHeld), res
+	}
 	if deadlock != "" || sr.Deadlock {
 		return violation("C21", "deadlock", "C21:deadlock", "all tasks blocked: %s", deadlock), res
 	}
